@@ -6,16 +6,19 @@ export CARGO_NET_OFFLINE=true CARGO_TARGET_DIR=$wt/target
 cd $wt || exit 2
 git checkout -q -- . ; git checkout -q --detach main 2>/dev/null
 rm -f test_suite/tests/demo_$id.rs
-if ! git apply --check $out/patch.diff 2>$out/apply.err; then echo "$id/$n: PATCH DOES NOT APPLY"; cat $out/apply.err; exit 1; fi
+if ! git apply --check $out/patch.diff 2>$out/apply.err; then
+  if git apply -3 $out/patch.diff 2>>$out/apply.err; then git diff HEAD > $out/patch.rebased.diff; git reset -q; echo "$id/$n: patch rebased with 3-way merge"; git checkout -q -- .; cp $out/patch.rebased.diff $out/patch.diff; else echo "$id/$n: PATCH DOES NOT APPLY"; cat $out/apply.err; git checkout -q -- .; exit 1; fi
+fi
 git apply $out/patch.diff
-cp $out/demo_$id.rs test_suite/tests/demo_$id.rs
 cargo test --workspace --offline --no-fail-fast > $out/with_change.log 2>&1
-suite_fail=$(grep -E '^test .* FAILED$' $out/with_change.log | grep -v 'ui_tests' | grep -vc "demo_")
-demo_with=$(grep -A200 "Running tests/demo_$id.rs" $out/with_change.log | grep -m1 '^test result' )
-# which failed tests are not from the demo binary
-nondemo=$(awk '/Running /{cur=$0} /^test .* FAILED$/{print cur" :: "$0}' $out/with_change.log | grep -v "demo_$id" | grep -v ui_tests)
+nondemo=$(awk '/Running /{cur=$0} /^test .* FAILED$/{print cur" :: "$0}' $out/with_change.log | grep -v ui_tests)
+npass=$(grep -E '^test result: ok' $out/with_change.log | awk '{s+=$4} END{print s}')
+builderr=$(grep -c '^error: could not compile' $out/with_change.log)
+cp $out/demo_$id.rs test_suite/tests/demo_$id.rs
+cargo test -p scale-info-test-suite --test demo_$id --offline > $out/demo_with_change.log 2>&1
+demo_with=$(grep -m1 -E '^test result|^error: could not compile|^error(\[E[0-9]+\])?:' $out/demo_with_change.log)
 git checkout -q -- . 
 cargo test -p scale-info-test-suite --test demo_$id --offline > $out/without_change.log 2>&1
-demo_without=$(grep -m1 '^test result' $out/without_change.log)
+demo_without=$(grep -m1 -E '^test result|^error: could not compile' $out/without_change.log)
 rm -f test_suite/tests/demo_$id.rs
-echo "$id/$n: with-change demo: [$demo_with] ; without-change demo: [$demo_without] ; other failing tests with change: [${nondemo}]"
+echo "$id/$n: suite with change: $npass passed, build errors $builderr, failing other than ui_tests: [${nondemo}] ; demo with change: [$demo_with] ; demo without change: [$demo_without]"
